@@ -160,7 +160,7 @@ func ExecRace(c RaceCase) hx.Verdict {
 func try(f func()) (pan string) {
 	defer func() {
 		if r := recover(); r != nil {
-			pan = firstLine(fmt.Sprint(r))
+			pan = firstLine(fmt.Sprint(r)) + " [at " + hx.PanicStack() + "]"
 		}
 	}()
 	f()
